@@ -3,6 +3,7 @@
 -/
 import Hpfeeds.Model.Proto3
 import Hpfeeds.Lemmas.Wire
+import Hpfeeds.Lemmas.BrokerPres
 namespace Hpfeeds.C16
 open Hpfeeds Hpfeeds.Proto3 Extracted
 
@@ -98,5 +99,39 @@ theorem info_reply (cfg : PCfg) (f : Frame) (n r : Bytes) (h : read f = some (.o
     (blkMsg cfg f).1 = [.onInfo n r, .wrote (authBytes cfg r), .ready] ∧
     (twMsg cfg f).1 = [.onInfo n r, .wrote (authBytes cfg r), .ready] := by
   unfold aioMsg blkMsg twMsg; rw [h]; exact ⟨rfl, rfl, rfl⟩
+
+/-! ### the dispatch tables, regenerated from the source on every run
+
+`Extracted.DISPATCH_AIO / _BLK / _TW` are read off the if/elif chains of `BaseProtocol.message_received` (asyncio,
+blocking) and `messageReceived` (Twisted) by `harness/extract.py`: opcode, field reader, handler (canonical name), and
+whether the reader's result is splatted.  The three models dispatch on the constructor `read` returns; `modelRow` names,
+per constructor, the reader and the handler the models stand for, and `read_op` says the constructor is chosen by the
+opcode.  So the obligation below ties the three source tables to one another AND to the model; a reader swapped or a
+handler renamed in one class makes it fail while the correspondence run looks for the stream on which the classes differ. -/
+
+def modelRow : Msg → Nat × String × String × Nat
+  | .error _ => (OP_ERROR, "readerror", "onerror", 0)
+  | .info _ _ => (OP_INFO, "readinfo", "oninfo", 1)
+  | .auth _ _ => (OP_AUTH, "readauth", "onauth", 1)
+  | .publish _ _ _ => (OP_PUBLISH, "readpublish", "onpublish", 1)
+  | .subscribe _ _ => (OP_SUBSCRIBE, "readsubscribe", "onsubscribe", 1)
+  | .unsubscribe _ _ => (OP_UNSUBSCRIBE, "readunsubscribe", "onunsubscribe", 1)
+
+def modelDispatch : List (Nat × String × String × Nat) :=
+  [Msg.error [], .info [] [], .auth [] [], .publish [] [] [], .subscribe [] [], .unsubscribe [] []].map modelRow
+
+/-- the model picks the row by the frame's opcode -/
+theorem model_dispatches_by_opcode {f : Frame} {m : Msg} (h : read f = some (.ok m)) : (modelRow m).1 = f.op.toNat := by
+  rw [Broker.read_op h]; cases m <;> rfl
+
+/-- the three classes' dispatch tables, as they are in the source NOW, are one table, and it is the model's … -/
+def routing (t : List (Nat × String × String × Nat)) : List (Nat × String × Nat) := t.map fun r => (r.1, r.2.2.1, r.2.2.2)
+
+/-- … compared on what is behaviour: which handler an opcode is routed to and whether the fields are splatted.  (The
+    NAME of the reader function is internal - `readsubscribe` and `readunsubscribe` are the same function under two
+    names - and is kept in the generated table for the reader of the evidence only.) -/
+theorem dispatch_tables_are_the_models :
+    routing DISPATCH_AIO = routing modelDispatch ∧ routing DISPATCH_BLK = routing modelDispatch ∧
+    routing DISPATCH_TW = routing modelDispatch := by decide
 
 end Hpfeeds.C16
